@@ -135,7 +135,12 @@ class EvalCtx(object):
         else:
             result.append(node)  # type: ignore[arg-type]
 
-        if cname:
-            return self.declarations(cname, result)
+        if cname and cname not in self.nodes:
+            # names importing each other in a cycle would be chased forever
+            self.nodes.add(cname)
+            try:
+                return self.declarations(cname, result)
+            finally:
+                self.nodes.discard(cname)
 
         return result
